@@ -24,6 +24,10 @@ WITNESSES = [
     ("rpt-gt-seq-non-monotone-lifetimes",
      ["new 7 aa - 0101 0", "limit 3", "reg bb - 0202", "reg cc 60000000 0303", "timeout 30000000", "tx 0 5 4"],
      "ok | seqs=0:A,1:PA5,2:PRC rpt=3 next=3 limit=3 frames=1/3"),
+    # an id announced to the peer and never retired by it is unregistered 30 s after retire_prior_to passed it
+    ("routing-expired-unconfirmed",
+     ["new 7 aa - 0101 0", "limit 2", "reg bb 60000000 0202", "tx 0 5 4", "ack 5", "timeout 30000000", "timeout 60000000"],
+     "ok | seqs=0:A rpt=2 next=2 limit=2 frames=1/0"),
 ]
 
 
